@@ -40,9 +40,9 @@ func miscCases(r *eng.Rand, thorough bool) (out []eng.Case) {
 		out = append(out, eng.Case{ID: fmt.Sprintf("prng/key%d/%d", kl, i), Sig: "C17|KeyedPRNG", Desc: pc, Run: func(c *eng.Ctx) { runPRNG(c, pc) }})
 	}
 	out = append(out, eng.Case{ID: "api/distribution-parameters", Sig: "C17|ring.NewSampler", Run: runAPI})
-	nr := 10
+	nr := 48
 	if thorough {
-		nr = 40
+		nr = 400
 	}
 	for i := 0; i < nr; i++ {
 		logN := eng.Pick(r, 4, 5, 6, 8)
